@@ -1,8 +1,8 @@
 SPECIFICATION Spec
 CONSTANTS
-  CliChunks <- CliNoEnd
-  SrvChunks <- SrvNoCfg
-  Confirm = FALSE
+  CliChunks <- CliOK
+  SrvChunks <- SrvBadCfg
+  Confirm = TRUE
   Recheck = TRUE
   FlushFirst = TRUE
 INVARIANTS Order NothingLost ParkOnlyWhileHandshaking JunkIsBeforeLine
